@@ -90,7 +90,12 @@ def drive(a, rng):
     if tr == "legacy":
         kw["position_transform"] = "legacy"
     elif tr == "plus1":
-        kw["position_transform"] = lambda x: 1 + np.round(x)
+        # the same transform written the ways a caller may write it: through numpy functions (accept anything), with plain arithmetic on the
+        # argument (the form write_vcf's own error message recommends; equals 1 + round(x) when the positions are integers) and with array methods
+        forms = ["np", "method"] + (["arith"] if all(float(x) == int(x) for x in ts.tables.sites.position) and float(ts.sequence_length) == int(ts.sequence_length) else [])
+        form = rng.choice(forms)
+        args["transform_form"] = form
+        kw["position_transform"] = {"np": lambda x: 1 + np.round(x), "arith": lambda x: 1 + x, "method": lambda x: x.round() + 1}[form]
     if ns and rng.random() < 0.6:
         m = [1 if rng.random() < 0.4 else 0 for _ in range(ns)]
         args["site_mask"] = m
@@ -131,7 +136,7 @@ def run_case(a, rng):
     case["error"] = ""
     try:
         ts.write_vcf(out, **kw)
-    except (ValueError, TypeError, IndexError, tskit.LibraryError) as e:
+    except Exception as e:  # noqa: BLE001 - total: whatever write_vcf raises is the observation
         case["raised"] = 1
         case["error"] = "%s: %s" % (type(e).__name__, str(e)[:60])
     if not case["raised"]:
@@ -155,7 +160,7 @@ def run_case(a, rng):
             out = io.StringIO()
             try:
                 ts.write_vcf(out, **kw)
-            except (ValueError, TypeError, IndexError, tskit.LibraryError) as e:
+            except Exception as e:  # noqa: BLE001 - total: whatever write_vcf raises is the observation
                 case["raised"] = 1
                 case["error"] = "%s: %s" % (type(e).__name__, str(e)[:60])
             if not case["raised"]:
